@@ -497,7 +497,8 @@ class Interp:
         keys = [i for i, f in enumerate(fields) if f['ty'].get('k') == 'param']
         refs = [i for i, f in enumerate(fields) if f['ty'].get('k') == 'ref' and f['ty']['mut']
                 and f['ty']['to'].get('k') == 'adt' and f['ty']['to']['path'] in self.container_paths]
-        if len(keys) == 1 and len(refs) == 1 and len(fields) == 2:
+        real = [f for f in fields if not (f['ty'].get('k') == 'adt' and f['ty']['path'].endswith('PhantomData'))]
+        if len(keys) == 1 and len(refs) == 1 and len(real) == 2:
             return keys[0], refs[0]
         return None
 
